@@ -504,7 +504,9 @@ func (e *escaper) escapeTree(c context, node parse.Node, name string, line int) 
 		return out, dname
 	}
 	t := e.template(name)
-	if t == nil {
+	if t == nil || t.Tree == nil {
+		// A template without a parse tree (e.g. the clone of an associated template that was
+		// never parsed) is incomplete, too; analysing it would dereference the nil tree.
 		// Two cases: The template exists but is empty, or has never been mentioned at
 		// all. Distinguish the cases in the error messages.
 		if e.ns.set[name] != nil {
